@@ -323,6 +323,8 @@ def load(
         force_constants_filename=force_constants_filename,
         is_compact_fc=is_compact_fc,
         log_level=log_level,
+        force_sets_filename=force_sets_filename,
+        forces_in_phonopy_yaml=forces_in_dataset(_dataset),
     )
     if fc is not None:
         phonon.force_constants = fc
